@@ -235,6 +235,72 @@ theorem c17_history (ops : List Op) :
         exact .inr ⟨vp0, rfl, by rw [← hk]; exact this⟩
     · cases hd
 
+/-! ### the table is a map from set identifiers to the last list given -/
+
+/-- any number of `SetValidPeers` calls in a row -/
+def applySets (vp : VP) (l : List (SetId × List Ident)) : VP := l.foldl (fun v e => v.set e.1 e.2) vp
+
+/-- the reference: the list given by the last call for `id`, if any -/
+def lastSet (l : List (SetId × List Ident)) (id : SetId) : Option (List Ident) :=
+  match l with
+  | [] => none
+  | e :: l => match lastSet l id with
+    | some ps => some ps
+    | none => if e.1 = id then some e.2 else none
+
+theorem get_after_set (vp : VP) (id id' : SetId) (peers : List Ident) :
+    (vp.set id peers).get id' =
+      if id' = id then some (peers.map Ident.getID) else some ((vp.get id').getD []) := by
+  by_cases h : id' = id
+  · subst h; simp [c17_get_exact]
+  · rw [if_neg h]
+    cases vp with
+    | none => rw [c17_first_set id id' peers h]; rfl
+    | some m => rw [c17_set_frame (some m) id id' peers (by simp) h]; rfl
+
+/-- **refinement to a map of sets, over whole histories of calls**: after any sequence of
+`SetValidPeers` calls (any identifiers, any lists, repetitions, empty lists) on any table, reading
+`id` gives the ids of the keys of the list given by the *last* call for `id`; for an identifier no
+call named, what was there before (the empty set once any call was made). -/
+theorem c17_get_last_set (vp : VP) (l : List (SetId × List Ident)) (id : SetId) :
+    (applySets vp l).get id =
+      match lastSet l id with
+      | some ps => some (ps.map Ident.getID)
+      | none => if l.isEmpty then vp.get id else some ((vp.get id).getD []) := by
+  induction l generalizing vp with
+  | nil => simp [applySets, lastSet]
+  | cons e l ih =>
+    have h := ih (vp.set e.1 e.2)
+    simp only [applySets, List.foldl_cons] at h ⊢
+    rw [h]
+    simp only [lastSet]
+    cases hl : lastSet l id with
+    | some ps => rfl
+    | none =>
+      simp only [List.isEmpty_cons]
+      rw [get_after_set]
+      by_cases he : id = e.1
+      · subst he
+        simp only [if_true]
+        cases l <;> simp
+      · have he' : ¬ e.1 = id := fun x => he x.symm
+        simp only [if_neg he, if_neg he']
+        cases l <;> simp
+
+/-- a `SetValidPeers` call never touches the registered connections: whatever it installs, a message
+over an existing connection is treated as before (the general form of `c17_not_retroactive`) -/
+theorem c17_set_leaves_connections (s : State) (id : SetId) (peers : List Ident) (k : Key) (m : Nat) :
+    (step (step s (.setPeers id peers)).1 (.msg k m)).2 = (step s (.msg k m)).2 := by
+  simp only [step]
+  split <;> rfl
+
+/-- connections the router opens itself are registered without any test, whatever the table says
+(the general form of `c17_outgoing_unfiltered`) -/
+theorem c17_dialled_unfiltered (s : State) (p : Ident) (m : Nat)
+    (hnew : s.conns.find? (fun c => c.peer.key == p.key) = none) :
+    (step (step s (.dial p)).1 (.msg p.key m)).2 = .dispatched p m := by
+  simp [step, List.find?_append, hnew]
+
 /-! ### what the theorem does not say — recorded so nobody reads more into it -/
 
 def setA : SetId := newPeerSetID [1]
@@ -271,6 +337,21 @@ in the bytes (pre-image of the hash; service ids are 16 bytes) -/
 theorem c17_ctx_setid_injective (sid sid' d d' : List Nat) (h : sid.length = 16) (h' : sid'.length = 16)
     (heq : ctxPeerSetID sid d = ctxPeerSetID sid' d') : sid = sid' ∧ d = d' :=
   List.append_inj heq (by omega)
+
+/-- **the service-facing wrappers** (`Context.SetValidPeers` / `GetValidPeers` with an identifier made
+by `Context.NewPeerSetID`): what one service sets under its bytes `d` is read back exactly by that
+service under `d`, and never changes what any service reads under other bytes, nor what another
+service reads under any bytes (also the same ones). -/
+theorem c17_ctx_sets_independent (vp : VP) (sid sid' d d' : List Nat) (peers : List Ident)
+    (hs : sid.length = 16) (hs' : sid'.length = 16) :
+    (vp.set (ctxPeerSetID sid d) peers).get (ctxPeerSetID sid d) = some (peers.map Ident.getID) ∧
+    (vp ≠ none → (sid, d) ≠ (sid', d') →
+      (vp.set (ctxPeerSetID sid d) peers).get (ctxPeerSetID sid' d') = vp.get (ctxPeerSetID sid' d')) := by
+  refine ⟨c17_get_exact _ _ _, fun hinit hne => ?_⟩
+  apply c17_set_frame vp _ _ peers hinit
+  intro heq
+  obtain ⟨h1, h2⟩ := c17_ctx_setid_injective sid' sid d' d hs' hs heq
+  exact hne (by rw [h1, h2])
 
 /-- router-level ids are the bytes padded with zeros / cut to 32: `[1]` and `[1,0]` name the same set -/
 theorem c17_raw_setid_padding : newPeerSetID [1] = newPeerSetID [1, 0] := by decide
@@ -650,6 +731,26 @@ theorem c17_shape_Context_NewPeerSetID :
 theorem c17_shape_struct_ServerIdentity_GetID :
     Shapes.network_struct_ServerIdentity_GetID =
    ["ServerIdentityID", "Public.String", "uuid.NewSHA1", "ServerIdentityID"] := rfl
+
+theorem c17_shape_router_Router_GetValidPeers :
+    Shapes.network_router_Router_GetValidPeers =
+   ["validPeers.get"] := rfl
+
+theorem c17_shape_router_Router_Start :
+    Shapes.network_router_Router_Start =
+   ["defer:verifC10Point", "r.receiveServerIdentity", "c.Close", "r.isPeerValid", "c.Close",
+     "verifC10Point", "r.registerConnection", "c.Close", "verifC10Point",
+     "r.launchHandleRoutine", "host.Listen"] := rfl
+
+theorem c17_shape_router_Router_registerConnection :
+    Shapes.network_router_Router_registerConnection =
+   ["r.Lock", "defer:r.Unlock", "if:r.isClosed", "return:xerrors.Errorf(\"\",ErrClosed)",
+     "remote.GetID", "if:okc", "remote.GetID", "remote.GetID", "return:nil"] := rfl
+
+theorem c17_shape_router_Router_launchHandleRoutine :
+    Shapes.network_router_Router_launchHandleRoutine =
+   ["r.Lock", "defer:r.Unlock", "if:r.isClosed", "return:xerrors.Errorf(\"\",ErrClosed)",
+     "wg.Add", "go{", "r.handleConn", "}", "return:nil"] := rfl
 
 
 end C17
